@@ -101,6 +101,8 @@ pub struct LineIo {
     pub intrs: Vec<When>,
     /// instruction budget of this line; when exceeded the operator presses Ctrl-C once
     pub max_instr: u64,
+    /// when the replies are used up start again with the first (very long dialogues)
+    pub cycle_replies: bool,
 }
 
 impl Default for LineIo {
@@ -110,6 +112,7 @@ impl Default for LineIo {
             keys: vec![],
             intrs: vec![],
             max_instr: 200_000,
+            cycle_replies: false,
         }
     }
 }
@@ -225,6 +228,11 @@ pub struct World {
     pub last_intr_site: String,
     /// stops (break reports, prompts) that found the cursor mid-line and forced a line break
     pub midline_stops: u64,
+    /// very long runs: Print events are counted and hashed but not stored (only the last few, in `tail`)
+    pub quiet: bool,
+    pub tail: std::collections::VecDeque<String>,
+    pub quiet_prints: u64,
+    pub quiet_hash: u64,
 }
 
 pub fn render_listing(l: &Listing) -> String {
@@ -289,6 +297,10 @@ impl World {
             last_intr_col: 0,
             last_intr_site: String::new(),
             midline_stops: 0,
+            quiet: false,
+            tail: std::collections::VecDeque::new(),
+            quiet_prints: 0,
+            quiet_hash: 0xcbf2_9ce4_8422_2325,
         }
     }
 
@@ -368,6 +380,15 @@ impl World {
             } else {
                 self.true_col += 1
             }
+        }
+        if self.quiet {
+            self.quiet_prints += 1;
+            self.quiet_hash = (self.quiet_hash ^ fnv1a(s.as_bytes())).wrapping_mul(0x0100_0000_01b3);
+            if self.tail.len() >= 8 {
+                self.tail.pop_front();
+            }
+            self.tail.push_back(s);
+            return;
         }
         self.events.push(Ev::Print(s));
     }
@@ -639,7 +660,14 @@ impl World {
                         self.interrupt();
                         out.intr_fired += 1;
                         since_intr = Some(0);
-                    } else if let Some(r) = replies.next() {
+                    } else if let Some(r) = match replies.next() {
+                        Some(r) => Some(r),
+                        None if io.cycle_replies && !io.replies.is_empty() => {
+                            replies = io.replies.iter();
+                            replies.next()
+                        }
+                        None => None,
+                    } {
                         self.events.push(Ev::Reply(r.clone()));
                         self.true_col = 0;
                         self.enter_raw("reply", r);
